@@ -206,6 +206,10 @@ func (r *runner) emit(sd *Seed, t Target, c Case, in []byte, wellFormed bool) Ou
 func (r *runner) genInputs(sd *Seed, f func(c Case, in []byte, wellFormed bool)) {
 	f(Case{Seed: sd.Name, Gen: "seed"}, sd.Wire, true)
 
+	if sd.Kind == "fixed" { // an input built for its own sake (no closure around it)
+		return
+	}
+
 	if sd.Kind == "json" || sd.Kind == "token" {
 		if tree, ok := explodeWire(sd.Wire); ok {
 			for _, m := range closure(tree) {
@@ -239,7 +243,7 @@ func (r *runner) genInputs(sd *Seed, f func(c Case, in []byte, wellFormed bool))
 
 			vals := []uint64{0, 1, 2, 7, 8, 9, 15, 16, cur - 1, cur + 1, cur + 8, cur * 2, uint64(len(sd.Wire)),
 				uint64(len(sd.Wire) - off), uint64(len(sd.Wire) - off - width), uint64(len(sd.Wire) - off - width + 1),
-				255, 256, 65535, 65536, 1 << 24, 1<<31 - 1, 1 << 31, 1<<32 - 1, cur ^ 1, cur ^ 0x100, cur ^ 0x10000}
+				255, 256, 65535, 65536, 1 << 24, 1 << 27, 1<<27 + 1, 1 << 28, 1<<31 - 1, 1 << 31, 1<<32 - 1, cur ^ 1, cur ^ 0x100, cur ^ 0x10000}
 
 			for _, v := range vals {
 				b := append([]byte{}, sd.Wire...)
